@@ -33,6 +33,20 @@ def oracle_latch(run):
 
 NOT_YET = {}
 
+# text for properties that have no single owning component (filled from the components' PARTS)
+BASE = {
+    "C14": dict(
+        stage="A",
+        level_text="Lean 4 theorems over the executable protocol models of lr_guarded, cow_guarded and rcu_list: no mutex / "
+                   "condition-variable event is ever accepted from a reader pc, every reader pc has an enabled next step in every "
+                   "reachable state whatever the writers' positions, a strictly decreasing bounded measure per read acquisition, and the "
+                   "writer's spin conditions are false once the registered readers have left. Tied to the source by trace acceptance "
+                   "of the unmodified headers under a deterministic scheduler.",
+        level_note="Trusted: Lean kernel (+propext, Classical.choice, Quot.sound), primitive semantics, shim/scheduler/driver glue. "
+                   "Wait-freedom is proved as enabledness + bounded measure; the RCU registration CAS loop is lock-free under the stated "
+                   "assumption that compare_exchange_weak does not fail spuriously forever."),
+}
+
 
 def register(PROPS, COMPONENTS):
     # component-specific tables live in checks/reg_*.py (each defines register(PROPS, COMPONENTS))
@@ -40,8 +54,21 @@ def register(PROPS, COMPONENTS):
     import importlib
     import os
     here = os.path.dirname(os.path.abspath(__file__))
-    for f in sorted(glob.glob(os.path.join(here, "reg_*.py"))):
-        importlib.import_module(os.path.basename(f)[:-3]).register(PROPS, COMPONENTS)
+    mods = [importlib.import_module(os.path.basename(f)[:-3]) for f in sorted(glob.glob(os.path.join(here, "reg_*.py")))]
+    for m in mods:
+        m.register(PROPS, COMPONENTS)
+    # properties decided by several components: each component contributes a PART (lean files + component names)
+    for m in mods:
+        for pid, part in getattr(m, "PARTS", {}).items():
+            if pid not in PROPS:
+                if pid not in BASE:
+                    continue
+                PROPS[pid] = dict(BASE[pid], lean_files=[], components=[], trusted_base=[], assumptions=[], partial=[])
+            sp = PROPS[pid]
+            for k in ("lean_files", "components", "trusted_base", "assumptions", "partial"):
+                for x in part.get(k, []):
+                    if x not in sp[k]:
+                        sp[k] = sp[k] + [x]
 
     COMPONENTS["latch"] = dict(client="latch", driver="latch", directed_runs=6, quick_runs=400, thorough_runs=30000,
                                oracle=oracle_latch)
